@@ -17,18 +17,19 @@ EXTENDS Naturals, Sequences, FiniteSets, TLC
 
 CONSTANTS DELETE_MODE,     \* "slot-only": IndexMap::delete clears the slot, the entry stays in `values`
                            \* "swap-remove": delete removes the entry (swap_remove + slot fix-up)
-          COMPLETE_ZERO    \* complete() adds `Content-Length: 0` to a body-less response that may carry a body
+          COMPLETE_ZERO,   \* complete() adds `Content-Length: 0` to a body-less response that may carry a body
+          STRIP_TE         \* complete() removes a `Transfer-Encoding` left by set_stream when the content is no stream any more
 
 \* --------------------------------------------------------------------------------------------- vocabulary
 UserStd  == {"A", "B"}                 \* two standard headers the user manipulates (e.g. Server, Vary)
-Framing  == {"CT", "CL", "DT"}         \* Content-Type, Content-Length, Date: set by the framework
+Framing  == {"CT", "CL", "DT", "CC", "TE"}   \* Content-Type, Content-Length, Date, and (streams) Cache-Control, Transfer-Encoding: set by the framework
 StdNames == UserStd \cup Framing
 CustNames == {"X", "Y"}                \* custom header names
-NLen(n) == CASE n = "A" -> 6 [] n = "B" -> 4 [] n = "CT" -> 12 [] n = "CL" -> 14 [] n = "DT" -> 4
+NLen(n) == CASE n = "A" -> 6 [] n = "B" -> 4 [] n = "CT" -> 12 [] n = "CL" -> 14 [] n = "DT" -> 4 [] n = "CC" -> 13 [] n = "TE" -> 17
              [] n = "X" -> 3 [] n = "Y" -> 8 [] n = "SC" -> 10 [] OTHER -> 5
 \* value tokens and their byte lengths; "n<k>" is the decimal text of a body length
 TokLen(t) == CASE t = "p" -> 1 [] t = "qq" -> 2 [] t = "L" -> 300 [] t = "date" -> 29
-               [] t = "text" -> 25 [] t = "html" -> 24 [] t = "json" -> 16 [] t = "raw" -> 24
+               [] t = "text" -> 25 [] t = "html" -> 24 [] t = "json" -> 16 [] t = "raw" -> 24 [] t = "sse" -> 17 [] t = "nocache" -> 25 [] t = "chunked" -> 7
                [] t = "n0" -> 1 [] t = "n3" -> 1 [] t = "n12" -> 2 [] t = "n300" -> 3
                [] t = "c1" -> 5 [] t = "c2" -> 7 [] OTHER -> 1
 RECURSIVE ValLen(_)
@@ -40,7 +41,8 @@ LenOf(t) == CASE t = "n0" -> 0 [] t = "n1" -> 1 [] t = "n3" -> 3 [] t = "n12" ->
               [] t = "n1000" -> 1000 [] t = "n5000" -> 5000 [] OTHER -> 0
 StatusOf(t) == CASE t = "s200" -> 200 [] t = "s204" -> 204 [] t = "s404" -> 404 [] t = "s304" -> 304 [] t = "s500" -> 500 [] t = "s201" -> 201 [] OTHER -> 200
 
-BodyKinds == {"text", "html", "json", "raw"}
+BodyKinds == {"text", "html", "json", "raw", "stream"}     \* stream: one server-sent event of `len` bytes, chunked
+StreamBytes(len) == len + 8                                   \* "data: " + message + LF LF
 MayCarryBody(status) == status \notin {204, 304, 100, 101}
 
 \* --------------------------------------------------------------------------------------------- operations
@@ -56,7 +58,7 @@ IdealInitFor(names) ==
              [status |-> 200,
               hdr    |-> [n \in names \cup {"CT"} |-> <<>>],   \* <<>> = not live
               cookies |-> <<>>,
-              body   |-> [present |-> FALSE, len |-> 0]]
+              body   |-> [present |-> FALSE, len |-> 0, stream |-> FALSE]]
 IdealInit == IdealInitFor(UserStd \cup CustNames)
 
 IdealApply(s, op) ==
@@ -65,8 +67,9 @@ IdealApply(s, op) ==
     [] k \in {"app", "capp"}  -> [s EXCEPT !.hdr[op[2]] = Append(@, op[3])]
     [] k \in {"rem", "crem"}  -> [s EXCEPT !.hdr[op[2]] = <<>>]
     [] k = "cookie"           -> [s EXCEPT !.cookies = Append(@, op[2])]
-    [] k = "body"             -> [s EXCEPT !.hdr["CT"] = <<op[2]>>, !.body = [present |-> TRUE, len |-> LenOf(op[3])]]
-    [] k = "drop"             -> [s EXCEPT !.hdr["CT"] = <<>>, !.body = [present |-> FALSE, len |-> 0]]
+    [] k = "body"             -> [s EXCEPT !.hdr["CT"] = <<IF op[2] = "stream" THEN "sse" ELSE op[2]>>,
+                                           !.body = [present |-> TRUE, len |-> LenOf(op[3]), stream |-> op[2] = "stream"]]
+    [] k = "drop"             -> [s EXCEPT !.hdr["CT"] = <<>>, !.body = [present |-> FALSE, len |-> 0, stream |-> FALSE]]
     [] k = "status"           -> [s EXCEPT !.status = StatusOf(op[2])]
     [] OTHER -> s
 
@@ -95,7 +98,9 @@ WireOK(s, method, w) ==
      ELSE IF ~MayCarryBody(s.status) THEN w.blen = 0
      ELSE IF method = "HEAD" THEN w.blen = 0
      ELSE /\ w.framing \in {"cl", "chunked"}         \* the client can find the end without waiting for close
-          /\ w.blen = (IF s.body.present THEN s.body.len ELSE 0)
+          /\ w.blen = (IF ~s.body.present THEN 0 ELSE IF s.body.stream THEN StreamBytes(s.body.len) ELSE s.body.len)
+          /\ (s.body.present /\ s.body.stream => w.framing = "chunked")
+          /\ Count(w.lines, "TE") = (IF w.framing = "chunked" THEN 1 ELSE 0)      \* no stale Transfer-Encoding in front of a plain body
           /\ (w.framing = "cl" => ValueOf(w.lines, "CL") = <<LenTok(w.blen)>>)
 
 \* classification of a wire that is not OK (signature for known findings)
@@ -110,6 +115,7 @@ WireClass(s, method, w) ==
   ELSE IF s.status = 204 THEN "204-framing"
   ELSE IF method = "HEAD" \/ ~MayCarryBody(s.status) THEN "body-on-bodyless"
   ELSE IF w.framing \notin {"cl", "chunked"} THEN "no-declared-length"
+  ELSE IF Count(w.lines, "TE") # (IF w.framing = "chunked" THEN 1 ELSE 0) THEN "stale-transfer-encoding"
   ELSE "length-mismatch"
 
 \* --------------------------------------------------------------------------------------------- layer (b): mechanism
@@ -122,7 +128,7 @@ ImplInit ==
    custom |-> <<>>,
    cookies |-> <<>>,
    size   |-> 2 + LineLen("DT", <<"date">>) + LineLen("CL", <<"n0">>),
-   content |-> [present |-> FALSE, len |-> 0]]
+   content |-> [present |-> FALSE, len |-> 0, stream |-> FALSE]]
 
 \* Headers::insert
 Insert(s, n, v) ==
@@ -166,15 +172,22 @@ ImplApply(s, op) ==
     [] k = "capp"   -> CAppend(s, op[2], op[3])
     [] k = "crem"   -> CRemove(s, op[2])
     [] k = "cookie" -> [s EXCEPT !.cookies = Append(@, op[2]), !.size = @ + 12 + TokLen(op[2]) + 2]
-    [] k = "body"   -> [Insert(Insert(s, "CT", <<op[2]>>), "CL", <<op[3]>>) EXCEPT !.content = [present |-> TRUE, len |-> LenOf(op[3])]]
-    [] k = "drop"   -> [Remove(Remove(s, "CT"), "CL") EXCEPT !.content = [present |-> FALSE, len |-> 0]]
+    [] k = "body"   -> IF op[2] = "stream"
+                         THEN \* set_stream_raw: ContentLength(None), ContentType, CacheControl, TransferEncoding
+                              [Insert(Insert(Insert(Remove(s, "CL"), "CT", <<"sse">>), "CC", <<"nocache">>), "TE", <<"chunked">>)
+                                 EXCEPT !.content = [present |-> TRUE, len |-> LenOf(op[3]), stream |-> TRUE]]
+                         ELSE [Insert(Insert(s, "CT", <<op[2]>>), "CL", <<op[3]>>) EXCEPT !.content = [present |-> TRUE, len |-> LenOf(op[3]), stream |-> FALSE]]
+    [] k = "drop"   -> [Remove(Remove(s, "CT"), "CL") EXCEPT !.content = [present |-> FALSE, len |-> 0, stream |-> FALSE]]
     [] k = "status" -> [s EXCEPT !.status = StatusOf(op[2])]
     [] OTHER -> s
 
 \* Router::handle (HEAD: content := None, headers kept) then Response::complete
 ImplFinish(s, method) ==
-  LET s1 == IF method = "HEAD" THEN [s EXCEPT !.content = [present |-> FALSE, len |-> 0]] ELSE s
-      s2 == IF s1.status = 204 THEN [Remove(s1, "CL") EXCEPT !.content = [present |-> FALSE, len |-> 0]] ELSE s1
+  LET none == [present |-> FALSE, len |-> 0, stream |-> FALSE]
+      s0 == IF STRIP_TE /\ ~s.content.stream THEN Remove(s, "TE") ELSE s
+      s1 == IF method = "HEAD" THEN [s0 EXCEPT !.content = none] ELSE s0
+      s2 == IF s1.status = 204 THEN [Remove(s1, "CL") EXCEPT !.content = none]
+            ELSE IF s1.content.stream THEN Remove(s1, "CL") ELSE s1
       s3 == IF COMPLETE_ZERO /\ ~s2.content.present /\ s2.slots["CL"] = 0 /\ MayCarryBody(s2.status)
               THEN Insert(s2, "CL", <<"n0">>) ELSE s2
   IN s3
@@ -193,6 +206,7 @@ ImplWire(s, method) ==
   LET f == ImplFinish(s, method)
       ls == ImplLines(f)
       hasCL == \E i \in DOMAIN ls : ls[i].n = "CL" IN
-  [wf |-> TRUE, trailing |-> 0, status |-> f.status, lines |-> ls, blen |-> IF f.content.present THEN f.content.len ELSE 0,
-   framing |-> IF hasCL THEN "cl" ELSE "close"]
+  [wf |-> TRUE, trailing |-> 0, status |-> f.status, lines |-> ls,
+   blen |-> IF ~f.content.present THEN 0 ELSE IF f.content.stream THEN StreamBytes(f.content.len) ELSE f.content.len,
+   framing |-> IF f.content.present /\ f.content.stream THEN "chunked" ELSE IF hasCL THEN "cl" ELSE "close"]
 =============================================================================
